@@ -27,7 +27,7 @@ func init() {
 	register(&Prop{ID: "C13", Run: c13Run,
 		Rule: "every case executes one operation through pipeline.New(WithData(doc)).Execute on a generated data document (<= 4 levels, key pool of 6 path-safe keys), along a route named by the case: directly (half of the cases), or through the copy made by CloneWith(ctx) of the operation alone / of the OpSpec / ActionSpec / named step holding it, or as the body of a forEach over one item, one or two levels deep (forEach clones its operations per item) - all predicates and the model comparison are the same on every route, and a fixed table runs every route x every configuration (set strategies x container / leaf / list-item / absent / root targets holding keys the payload lacks, template parseAs x trim, import modes, export formats x target kinds, patch ops, env include / exclude) on one document. set: payload maps (also present-but-empty ones, and scalars over a wider value range: texts with white space around them, line ends, letter-case twins, supplementary-plane characters, template look-alikes, typed int64 / uint64) x target paths (existing leaf / container / list / list item, absent below a container, absent below a leaf, fresh, empty = root) x strategy {unset, merge, replace, unknown} x nil payload; template: literal / {{ .key }} / failing / YAML-of-a-tree templates x parseAs {unset, none, yaml, unknown} x trim, and YAML texts whose reading depends on the WHITE SPACE AROUND them (before the first token: tab, spaces, line ends, NBSP, NEL, BOM; after the last: blank lines behind a block scalar with a chomping indicator, tab, NBSP, NEL, document end marker, comment; uniformly indented blocks; texts YAML rejects) x parseAs x trim - direct predicate: what is stored is the YAML parse (yaml.v3 applied by the harness; every scalar a text) of the rendered text with the white space trimmed off when trim is set, a text the parser rejects is an error; patch: RFC 6902 ops with pointers derived from the document's own paths, value / valueFrom / from; import: text / binary over random byte strings (incl. invalid UTF-8, empty; half of them led by a special beginning - UTF-8 / UTF-16 / UTF-32 byte order marks whole, doubled and cut, NUL, YAML document / directive / comment / tag / anchor markers, white space and line ends of every kind, quotes, braces, template delimiters, control and magic bytes - and a third ended by a special ending: with and without final line end, CR, NUL, BOM, backslash, padding characters), yaml / json / properties over encoded subtrees, missing file, unknown mode, empty path; roundtrip: export of a container (or the whole document) as yaml / json re-imported at a fresh path; export: every format (incl. unknown) x target kind (nil path, absent, leaf, list, container, via value and via ref); env: synthetic process environment (os.Clearenv + Setenv, restored afterwards) x include / exclude regex pools; lenient: strings without '{{', with unbalanced braces, failing and working templates; rerun (histories): ONE operation object decoded from pipeline YAML (export with path / file given as immediate value or as {ref: leaf}; set / patch / template / import / env with path, file and template fields partly written as templates over data leaves) is executed 2-4 times through one executor while edits between the executions remove the referenced leaf, turn it into a container / list / other scalar, point it elsewhere, change or remove the target, rewrite or unlink the imported files - every execution is judged on the data of that moment (export: documented rule with path and file resolved on the wire document, only the file named at that moment is touched, model exportOp / resolve; all kinds: same outcome, document and files as a fresh operation object decoded from the same YAML on an equal document). A case is non-trivial when the data document has at least two nodes and the operation's outcome is not an argument error (a history: at least two executions with different data); distinct = distinct canonical case JSON (hash).",
 		Assumptions: []string{
-			"keys and path segments are over [A-Za-z0-9_-] (index groups only where a list item is addressed); scalars are NaN-free and -0-free",
+			"keys and path segments are path-safe: over [A-Za-z0-9_-] in the main streams, any text without a dot, an index group or a template delimiter in the look-alike stream of c13_look.go (index groups only where a list item is addressed); scalars are NaN-free and -0-free",
 			"text/template + sprig, yaml.v3, encoding/json, magiconair/properties, regexp and the OS are parameters of the model: the harness feeds the model the renderer's / parser's / decoder's / matcher's actual results for the same inputs",
 			"list-item targets address an existing item or the position one past the end (no null padding of intermediate slots is counted as a frame change)",
 			"environment variable names are over [A-Za-z0-9_] (a dot or index group in a name is interpreted by AddValueAt as path syntax)",
@@ -90,6 +90,7 @@ type c13Round struct {
 	Format string `json:"format"`
 	Pre    bool   `json:"pre,omitempty"` // the target file already exists with longer, unrelated content
 	Via    string `json:"via,omitempty"`
+	Tmp    bool   `json:"tmp,omitempty"` // executed while TMPDIR names a directory on another file system than the target (c13_look.go)
 }
 
 type c13Export struct {
@@ -101,6 +102,7 @@ type c13Export struct {
 	BadDir  bool   `json:"badDir,omitempty"` // the file cannot be opened
 	Pre     bool   `json:"pre,omitempty"`    // the target file already exists with longer, unrelated content
 	Via     string `json:"via,omitempty"`
+	Tmp     bool   `json:"tmp,omitempty"` // executed while TMPDIR names a directory on another file system than the target (c13_look.go)
 }
 
 type c13Env struct {
@@ -318,7 +320,7 @@ func c13Pointer(path string) string {
 	}
 	var sb strings.Builder
 	for _, s := range segs {
-		sb.WriteString("/" + s.Name)
+		sb.WriteString("/" + c13EscTok(s.Name)) // RFC 6901: '~' as ~0, '/' as ~1 inside a token
 		for _, i := range s.Idx {
 			sb.WriteString("/" + strconv.Itoa(i))
 		}
@@ -629,6 +631,7 @@ func c13Run(c *Ctx) {
 	c13RunRerun(c)
 	heapPatchOpGen(c, c.N(400)) // heap_share2.go
 	heapSetOpGen(c, c.N(300))   // heap_share2.go
+	c13RunLook(c)               // syntax look-alike keys, rare shapes, TMPDIR on another file system (c13_look.go)
 }
 
 // c13Heads / c13Tails: special beginnings and endings of imported files.
@@ -1484,6 +1487,7 @@ func c13EvalRound(c *Ctx, raw []byte) {
 	}
 	dir := c13TempDir(c)
 	defer os.RemoveAll(dir)
+	defer c13MaybeTmpElsewhere(c, p.Tmp, dir)() // a legal environment: temporary files live on another file system (c13_look.go)
 	file := filepath.Join(dir, "out."+p.Format)
 	if p.Pre {
 		// the target file already exists and is longer than what will be written: an export
@@ -1645,6 +1649,7 @@ func c13EvalExport(c *Ctx, raw []byte) {
 	}
 	dir := c13TempDir(c)
 	defer os.RemoveAll(dir)
+	defer c13MaybeTmpElsewhere(c, p.Tmp, dir)() // a legal environment: temporary files live on another file system (c13_look.go)
 	file := filepath.Join(dir, "out.dat")
 	if p.BadDir {
 		file = filepath.Join(dir, "no-such-dir", "out.dat")
